@@ -128,7 +128,28 @@ def rand_record(rng, names, types=(T_A, T_AAAA, T_NSEC, T_PTR, T_SRV, T_TXT)):
     return r
 
 
+def gen_late_message(rng):
+    """a message in which some names occur for the first time beyond offset 4096 / 8192 / 12288 and are then used again,
+       so that compression pointers carry the high bits of the 14-bit offset"""
+    m = Msg(rng.choice([0, 1, rng.randrange(65536)]), True, False)
+    early = [b"a.local.", b"local."]
+    target = rng.choice([4096, 4096, 8192, 12288])
+    size = 12
+    while size < target + rng.choice([0, 0, 40, 300]):
+        r = Rec(rng.choice(early), T_TXT, False, 120)
+        r.attrs = {b"k": bytes(rng.choice(b"xyz") for _ in range(rng.choice([253, 253, 100])))}
+        m.records.append(r)
+        size += 2 + 10 + 1 + len(r.attrs[b"k"]) + 2 + (9 if len(m.records) == 1 else 0)
+    tag = bytes(rng.choice(b"qrstuvw") for _ in range(rng.choice([3, 5, 9])))
+    late = [tag + b".zone.", b"Inst." + tag + b".zone.", b"host-" + tag + b".zone.", b"zone."]
+    for _ in range(rng.choice([3, 5, 8])):
+        m.records.append(rand_record(rng, late))
+    return m
+
+
 def gen_message(rng, big=False):
+    if not big and rng.random() < 0.02:
+        return gen_late_message(rng)
     names = name_pool(rng)
     m = Msg(rng.choice([0, 1, 0xffff, rng.randrange(65536)]), rng.random() < 0.6, rng.random() < 0.2)
     for _ in range(rng.choice([0, 0, 1, 2, 3])):
